@@ -76,21 +76,25 @@ theorem secondPass_preserves (strategy : Strategy) :
     rw [secondPass]
     have hc := hJ r dir src dst h
     split
-    · rename_i heq; rw [heq] at hc; exact ih _ _ hs hc
-    · rename_i heq
-      rw [heq] at hc
-      split
-      · have hr := resolveConflict_preserves R J hJ _ dir src dst strategy as hs hc
+    · exact h
+    · exact h
+    · exact h
+    · split
+      · rename_i heq; rw [heq] at hc; exact ih _ _ hs hc
+      · rename_i heq
+        rw [heq] at hc
         split
-        · rename_i heq2
-          rw [heq2] at hr
-          apply ih _ _ _ hr.1
-          rcases hs with rfl | rfl | ⟨rfl, _⟩
-          · exact Or.inl rfl
-          · exact Or.inr (Or.inl rfl)
-          · exact Or.inr (Or.inr ⟨rfl, hr.2 rfl⟩)
-        · rename_i heq2; rw [heq2] at hr; exact hr.1
-      · exact hc
+        · have hr := resolveConflict_preserves R J hJ _ dir src dst strategy as hs hc
+          split
+          · rename_i heq2
+            rw [heq2] at hr
+            apply ih _ _ _ hr.1
+            rcases hs with rfl | rfl | ⟨rfl, _⟩
+            · exact Or.inl rfl
+            · exact Or.inr (Or.inl rfl)
+            · exact Or.inr (Or.inr ⟨rfl, hr.2 rfl⟩)
+          · rename_i heq2; rw [heq2] at hr; exact hr.1
+        · exact hc
 
 /-- whatever is preserved by every non-override renamer call is preserved by the whole run,
     for every file list, plan, order and answer sequence — as long as override was not chosen -/
@@ -168,15 +172,19 @@ theorem secondPass_preserves_all (strategy : Strategy) :
     rw [secondPass]
     have hc := hJ r dir src dst false h
     split
-    · rename_i heq; rw [heq] at hc; exact ih _ _ hc
-    · rename_i heq
-      rw [heq] at hc
-      split
-      · have hr := resolveConflict_preserves_all R J hJ _ dir src dst strategy as hc
+    · exact h
+    · exact h
+    · exact h
+    · split
+      · rename_i heq; rw [heq] at hc; exact ih _ _ hc
+      · rename_i heq
+        rw [heq] at hc
         split
-        · rename_i heq2; rw [heq2] at hr; exact ih _ _ hr
-        · rename_i heq2; rw [heq2] at hr; exact hr
-      · exact hc
+        · have hr := resolveConflict_preserves_all R J hJ _ dir src dst strategy as hc
+          split
+          · rename_i heq2; rw [heq2] at hr; exact ih _ _ hr
+          · rename_i heq2; rw [heq2] at hr; exact hr
+        · exact hc
 
 /-- whatever every renamer call preserves (override or not) is preserved by every run -/
 theorem execute_preserves_all (st : σ) (files : List FileRec) (gen : Nat → Gen) (strategy : Strategy)
